@@ -630,4 +630,35 @@ theorem txFolds_laminar (fx : Fixes) (hfx : fx.fold = true) (j : Journal)
   · have := b5 hc
     omega
 
+/-! ## Non-vacuity: a journal on which every hypothesis used above holds
+
+    The tree is the real parser's tree of the text (two adjacent transactions, a Cyrillic
+    description). -/
+
+def exDoc : Txt := "2024-01-15 кафе\n    a:b  1\n    c:d\n2024-01-16 x\n    a:b  2\n    c:d\n".toList
+
+def exPosting (line : Nat) (name : Bytes) (amt : Bool) : Posting :=
+  ⟨.none, ⟨name, ⟨⟨line, 5, 0⟩, ⟨line, 8, 0⟩⟩⟩,
+   if amt then some ⟨⟨1, 0⟩, [49], ⟨[], .left, Rng.zero⟩, false, ⟨⟨line, 10, 0⟩, ⟨line, 11, 0⟩⟩⟩ else none,
+   none, none, [], [], .none, ⟨⟨line, 5, 0⟩, ⟨line, if amt then 11 else 8, 0⟩⟩⟩
+
+def exJournal : Journal :=
+  ⟨[⟨⟨2024, 1, 15, ⟨⟨1, 1, 0⟩, ⟨1, 11, 0⟩⟩⟩, none, .none, [], [208, 186, 208, 176, 209, 132, 208, 181], [], [],
+      [exPosting 2 [97, 58, 98] true, exPosting 3 [99, 58, 100] false], [], [], ⟨⟨1, 1, 0⟩, ⟨4, 1, 0⟩⟩⟩,
+    ⟨⟨2024, 1, 16, ⟨⟨4, 1, 0⟩, ⟨4, 11, 0⟩⟩⟩, none, .none, [], [120], [], [],
+      [exPosting 5 [97, 58, 98] true, exPosting 6 [99, 58, 100] false], [], [], ⟨⟨4, 1, 0⟩, ⟨7, 1, 0⟩⟩⟩],
+   [], [], []⟩
+
+example :
+    TreePositionsSound (unitOf false) exDoc exJournal = true ∧
+    (symbolRanges exJournal).all (fun r => convGuard false exDoc r && rngSmall r && rngPos r) = true ∧
+    allPairs astDisjoint (symbolRanges exJournal) = true ∧
+    allPairs entriesApart exJournal.transactions = true ∧
+    allPairs linesApart exJournal.transactions = false ∧
+    (hover exJournal ⟨1, 5⟩).map (fun x => (x.1.kind, hitGuard false exDoc x.1, toN x.2)) = some (.account, true, ⟨1, 4, 1, 7⟩) ∧
+    (hover exJournal ⟨0, 13⟩).map (fun x => (x.1.kind, hitGuard false exDoc x.1, covers exDoc (toN x.2) "кафе".toList)) =
+      some (.payee, true, true) ∧
+    ((references exJournal ⟨1, 5⟩ true).map fun x => (hitGuard false exDoc x.1, covers exDoc (toN x.2) "a:b".toList)) =
+      [(true, true), (true, true)] := by decide
+
 end HL.Props.C08
